@@ -36,9 +36,11 @@ def _table(pool, nk, ml, mr, tag="small"):
 def _random(rng, n):
     for _ in range(n):
         lk, rk = jc.unique_keys(rng) if rng.random() < 0.7 else jc.random_keys(rng, 15)
-        yield {"fam": "table.random", "kind": rng.choice(["inner", "left", "full"]),
+        spec = {"fam": "table.random", "kind": rng.choice(["inner", "left", "full"]),
                "expect": rng.choice(jc.EXPECTS) if rng.random() < 0.9 else rng.choice(jc.BAD_EXPECTS),
                "lk": lk, "rk": rk, "v": rng.randrange(NVARIANTS), "mm": True}
+        # every 5th random case is run 'warm': an earlier join on the same objects, then in-place key edits
+        yield jc.add_warm(rng, spec) if rng.random() < 0.2 else spec
 
 
 def generate(rng, tier):
